@@ -144,6 +144,7 @@ inductive PExpr where
   | beginDir | endDir
   | beginKw (v : Nat) | endKw
   | dirScope (e : PExpr)
+  | kwScope (v : Nat) (e : PExpr)
   | ifDir (a b : PExpr)
   | nestl (first item : PExpr) (wraps : List Nat) (outer : Nat)
   | shaped (stmts : List PExpr) (res : Shape)
@@ -334,6 +335,9 @@ def eval (g : Grammar) (inp : Input) : Nat → PExpr → Nat → Rec → PState 
     | .dirScope e =>
       match eval g inp fuel e pos r { st with dir := st.dir + 1 } with
       | (o, st') => (o, { st' with dir := st'.dir - 1 })
+    | .kwScope v e =>
+      match eval g inp fuel e pos r { st with vers := v :: st.vers } with
+      | (o, st') => (o, { st' with vers := st'.vers.tail })
     | .ifDir a b => if st.dir > 0 then eval g inp fuel a pos r st else eval g inp fuel b pos r st
     | .nestl first item wraps outer =>
       match eval g inp fuel first pos r st with
